@@ -136,33 +136,38 @@ def has2ndBit (f : Nat) : Bool := (f &&& 2) >>> 1 == 1
 def has5thBit (f : Nat) : Bool := (f &&& 16) == 1
 def needAllocIP (flags : Nat) : Bool := !(has2ndBit flags && !has5thBit flags)
 
-/-- first pass of `parsePDI`: UE address (possibly allocated), source interface, F-TEID -/
-def parsePDI1 (cfg : Cfg) (seid : Nat) (ie : PdrIE) (pool : Option Pool.P) (p : Pdr) :
-    Except PErr (Pdr × Option Pool.P) := do
-  let (p, pool) ← match ie.ueip with
-    | none => pure (p, pool)
-    | some (flags, ip) =>
-      if needAllocIP flags then
-        match pool with
-        | none => throw (.reject causeRejected)              -- no pool configured: refused
-        | some pl =>
-          match Pool.alloc pl seid with
-          | (none, _) => throw (.reject causeRejected)
-          | (some a, pl') => pure ({ p with ueAddress := a, allocIP := true }, some pl')
-      else if flags &&& 2 = 0 ∨ flags &&& 16 ≠ 0 then throw (.reject causeRejected)   -- the IE carries no IPv4 address
-      else pure ({ p with ueAddress := ip }, pool)
-  let p ← match ie.srcIface with
-    | none => pure p
-    | some 3 => throw (.reject causeRejected)
-    | some 0 => pure { p with srcIface := access, srcIfaceMask := 0xFF }
-    | some 1 => pure { p with srcIface := core, srcIfaceMask := 0xFF }
-    | some _ => pure p
-  let p := match ie.fteid with
-    | none => p
-    | some (true, _, _) => { p with chooseTeid := true }
-    | some (false, teid, ip) =>
-      if teid ≠ 0 then { p with tunnelTEID := teid, tunnelTEIDMask := 0xFFFFFFFF, tunnelIP4Dst := ip, tunnelIP4DstMask := 0xFFFFFFFF } else p
-  pure (p, pool)
+/-- source interface and F-TEID of the PDI (no state involved) -/
+def ifaceTeid (ie : PdrIE) (p : Pdr) : Pdr :=
+  let p := match ie.srcIface with
+    | some 0 => { p with srcIface := access, srcIfaceMask := 0xFF }
+    | some 1 => { p with srcIface := core, srcIfaceMask := 0xFF }
+    | _ => p
+  match ie.fteid with
+  | none => p
+  | some (true, _, _) => { p with chooseTeid := true }
+  | some (false, teid, ip) =>
+    if teid ≠ 0 then { p with tunnelTEID := teid, tunnelTEIDMask := 0xFFFFFFFF, tunnelIP4Dst := ip, tunnelIP4DstMask := 0xFFFFFFFF } else p
+
+/-- `parseUEAddressIE`: the address is taken from the IE or allocated from the pool (the only place the pool is used) -/
+def ueStep (seid : Nat) (ueip : Option (Nat × Nat)) (pool : Option Pool.P) (p : Pdr) : Except PErr Pdr × Option Pool.P :=
+  match ueip with
+  | none => (.ok p, pool)
+  | some (flags, ip) =>
+    if needAllocIP flags then
+      match pool with
+      | none => (.error (.reject causeRejected), pool)            -- no pool configured: refused
+      | some pl =>
+        match Pool.alloc pl seid with
+        | (none, _) => (.error (.reject causeRejected), pool)
+        | (some a, pl') => (.ok { p with ueAddress := a, allocIP := true }, some pl')
+    else if flags &&& 2 = 0 ∨ flags &&& 16 ≠ 0 then (.error (.reject causeRejected), pool)   -- the IE carries no IPv4 address
+    else (.ok { p with ueAddress := ip }, pool)
+
+/-- first pass of `parsePDI` in the IE order the harness uses: source interface, F-TEID, UE address.
+The pool is returned in every case: an allocation made before a later error stays made. -/
+def parsePDI1 (seid : Nat) (ie : PdrIE) (pool : Option Pool.P) (p : Pdr) : Except PErr Pdr × Option Pool.P :=
+  if ie.srcIface = some 3 then (.error (.reject causeRejected), pool)
+  else ueStep seid ie.ueip pool (ifaceTeid ie p)
 
 /-- second pass: application ID then SDF filter (at most one of them in the modelled envelope) -/
 def parsePDI2 (apps : List (String × List String)) (ie : PdrIE) (p : Pdr) : Except PErr Pdr := do
@@ -180,14 +185,16 @@ def parsePDI2 (apps : List (String × List String)) (ie : PdrIE) (p : Pdr) : Exc
     | .ignored _ => pure p
     | .rejected => throw (.reject causeRejected)
 
-/-- `parsePDR` -/
-def parsePDR (cfg : Cfg) (seid : Nat) (apps : List (String × List String)) (ie : PdrIE) (pool : Option Pool.P) :
-    Except PErr (Pdr × Option Pool.P) := do
-  let p : Pdr := { fseID := seid }
-  let (p, pool) ← parsePDI1 cfg seid ie pool p
-  let p ← parsePDI2 apps ie p
-  pure ({ p with precedence := ie.prec, pdrID := ie.id, farID := ie.farID, qerIDs := ie.qerIDs,
-                 needDecap := if ie.ohr = some 0 then 1 else 0 }, pool)
+/-- `parsePDR`; the pool is returned also when the rule is refused -/
+def parsePDR (seid : Nat) (apps : List (String × List String)) (ie : PdrIE) (pool : Option Pool.P) :
+    Except PErr Pdr × Option Pool.P :=
+  match parsePDI1 seid ie pool { fseID := seid } with
+  | (.error e, pool) => (.error e, pool)
+  | (.ok p, pool) =>
+    match parsePDI2 apps ie p with
+    | .error e => (.error e, pool)
+    | .ok p => (.ok { p with precedence := ie.prec, pdrID := ie.id, farID := ie.farID, qerIDs := ie.qerIDs,
+                             needDecap := if ie.ohr = some 0 then 1 else 0 }, pool)
 
 def ActionForward : Nat := Gen.Consts.ActionForward
 def ActionDrop : Nat := Gen.Consts.ActionDrop
@@ -413,18 +420,26 @@ structure Reply where
 
 def M : Nat := Gen.Consts.maxValue
 
-/-- the PDR loop of the establishment handler -/
+/-- what `RemoveSession` gives back: the session's UE address (keyed by its SEID) and its UP-chosen TEIDs -/
+def releaseRes (pool : Option Pool.P) (g : Teid.G) (lseid : Nat) (pdrs : List Pdr) : Option Pool.P × Teid.G :=
+  (pool.map fun pl => (Pool.dealloc pl lseid).2,
+   pdrs.foldl (fun g p => if p.chooseTeid then Teid.free g p.tunnelTEID else g) g)
+
+/-- the PDR loop of the establishment handler; on refusal the state reached so far is returned with the cause -/
 def estPdrs (cfg : Cfg) (lseid fseidIP : Nat) (apps : List (String × List String)) :
-    List PdrIE → Option Pool.P → Teid.G → List Pdr → Except PErr (List Pdr × Option Pool.P × Teid.G)
+    List PdrIE → Option Pool.P → Teid.G → List Pdr → Except (Nat × List Pdr × Option Pool.P × Teid.G) (List Pdr × Option Pool.P × Teid.G)
   | [], pool, g, acc => pure (acc.reverse, pool, g)
-  | ie :: rest, pool, g, acc => do
-    let (p, pool) ← parsePDR cfg lseid apps ie pool
-    let (p, g) ← if p.chooseTeid then
+  | ie :: rest, pool, g, acc =>
+    match parsePDR lseid apps ie pool with
+    | (.error (.reject cause), pool) => throw (cause, acc.reverse, pool, g)
+    | (.ok p, pool) =>
+      if p.chooseTeid then
         match Teid.allocate M g with
-        | none => throw (.reject causeNoResources)
-        | some (id, g') => pure ({ p with tunnelTEID := id, tunnelTEIDMask := 0xFFFFFFFF, tunnelIP4Dst := cfg.accessIP, tunnelIP4DstMask := 0xFFFFFFFF }, g')
-      else pure (p, g)
-    estPdrs cfg lseid fseidIP apps rest pool g ({ p with fseidIP := fseidIP } :: acc)
+        | none => throw (causeNoResources, acc.reverse, pool, g)
+        | some (id, g') =>
+          estPdrs cfg lseid fseidIP apps rest pool g'
+            ({ p with tunnelTEID := id, tunnelTEIDMask := 0xFFFFFFFF, tunnelIP4Dst := cfg.accessIP, tunnelIP4DstMask := 0xFFFFFFFF, fseidIP := fseidIP } :: acc)
+      else estPdrs cfg lseid fseidIP apps rest pool g ({ p with fseidIP := fseidIP } :: acc)
 
 def mapFars (cfg : Cfg) (lseid fseidIP : Nat) (upd : Bool) : List FarIE → Except PErr (List Far)
   | [] => pure []
@@ -446,16 +461,21 @@ structure EstReq where
   fars : List FarIE
   qers : List QerIE
 
-/-- `handleSessionEstablishmentRequest`; `lseid` is the SEID the random source produced (observed) -/
+/-- `handleSessionEstablishmentRequest`; `lseid` is the SEID the random source produced (observed).
+A request refused after the session record was created gives back whatever it had acquired. -/
 def establish (cfg : Cfg) (w : World) (a : Nat) (lseid : Nat) (r : EstReq) : World × Reply :=
   let c := w.conn a
   if r.nodeID ≠ c.remoteNode then (w, { cause := causeNoAssoc, seid := r.cpSeid })
   else
     match estPdrs cfg lseid r.cpIP c.apps r.pdrs w.pool w.teid [] with
-    | .error (.reject cause) => (w, { cause := cause, seid := r.cpSeid })
+    | .error (cause, pdrs, pool, g) =>
+      let (pool, g) := releaseRes pool g lseid pdrs
+      ({ w with pool := pool, teid := g }, { cause := cause, seid := r.cpSeid })
     | .ok (pdrs, pool, g) =>
       match mapFars cfg lseid r.cpIP false r.fars with
-      | .error (.reject cause) => ({ w with pool := pool, teid := g }, { cause := cause, seid := r.cpSeid })
+      | .error (.reject cause) =>
+        let (pool, g) := releaseRes pool g lseid pdrs
+        ({ w with pool := pool, teid := g }, { cause := cause, seid := r.cpSeid })
       | .ok fars =>
         let qers := r.qers.map fun ie => { parseQER lseid ie with fseidIP := r.cpIP }
         let (qers1, pdrs1) := markSessionQer pdrs qers
@@ -474,11 +494,8 @@ def deleteSession (cfg : Cfg) (w : World) (a : Nat) (seid : Nat) : World × Repl
   | none => (w, { cause := causeRejected, seid := 0 })
   | some s =>
     let t := sendDel cfg w.tables s.pdrs s.fars s.qers
-    -- releaseAllocatedIPs: the first downlink PDR with an allocated address releases the session's address
-    let pool := match w.pool with
-      | some pl => if s.pdrs.any (fun p => p.allocIP ∧ p.srcIface = core) then some (Pool.dealloc pl s.lseid).2 else some pl
-      | none => none
-    let w := { w with tables := t, pool := pool }
+    let (pool, g) := releaseRes w.pool w.teid s.lseid s.pdrs
+    let w := { w with tables := t, pool := pool, teid := g }
     (w.setConn a { c with sessions := c.sessions.filter (·.lseid ≠ seid) }, { cause := causeAccepted, seid := s.rseid })
 
 /-- the tables the live sessions denote: every rule of every stored session, installed on empty tables -/
